@@ -66,7 +66,7 @@ def main():
             for v in ("pre", "def", "min"):
                 cmds.append(f"tie {out}/{i}.{v}.net {out}/{i}.{v}.trace")
             for v in ("def", "min"):
-                cmds.append(f"cert {out}/{i}.pre.net {out}/{i}.{v}.net {out}/{i}.pre.trace {BUDGET}")
+                cmds.append(f"cert refine {out}/{i}.pre.net {out}/{i}.{v}.net {out}/{i}.pre.trace {BUDGET}")
         lines = circ.run_driver(driver, cmds, str(WORK / "batch"))
     tie_ok = sum(1 for l in lines if l.startswith("TIE") and " ok " in l)
     tie_bad = [l for l in lines if l.startswith("TIE") and "MISMATCH" in l]
